@@ -44,6 +44,7 @@ class FnTaint:
         self.tainted: set[str] = set()
         self.findings: list = []
         self.nested_static_params: set[str] = set()
+        self._parents = None
         a = fn.args
         params = a.posonlyargs + a.args + a.kwonlyargs
         for i, p in enumerate(params):
@@ -199,16 +200,112 @@ class FnTaint:
                 elif isinstance(node, ast.NamedExpr):
                     changed |= self.bind(node.target, self.is_tainted(node.value))
                 elif isinstance(node, (ast.FunctionDef, ast.Lambda)) and node is not self.fn:
-                    # nested function parameters: traced unless annotated static / obviously objects
-                    a = node.args
-                    for p in a.posonlyargs + a.args + a.kwonlyargs:
-                        st = ann_is_static(ast.unparse(p.annotation) if getattr(p, "annotation", None) is not None else None)
-                        if st is True or p.arg in ("bijection", "method", "unwrappable", "module", "leaf", "d", "_",
-                                                   "linear", "f", "func", "fn"):
-                            continue
-                        if p.arg not in self.tainted:
-                            self.tainted.add(p.arg)
+                    changed |= self._nested_params(node)
+
+    def _uses_of_nested(self, node):
+        """How a nested def / lambda is used inside the analysed function:
+        ('call', Call) - called directly by name; ('hof', [data exprs]) - handed to a higher-order call whose
+        other arguments (and the arguments the result is immediately applied to) are its data; ('escape',) -
+        anything else (returned, stored, decorated away)."""
+        if self._parents is None:
+            self._parents = {}
+            for par in ast.walk(self.fn):
+                for ch in ast.iter_child_nodes(par):
+                    self._parents[id(ch)] = par
+        refs = []
+        if isinstance(node, ast.Lambda):
+            refs = [node]
+        else:
+            refs = [n for n in ast.walk(self.fn) if isinstance(n, ast.Name) and n.id == node.name
+                    and isinstance(n.ctx, ast.Load)]
+            if not refs:
+                return [("escape",)]
+        uses = []
+        for r in refs:
+            par = self._parents.get(id(r))
+            if isinstance(par, ast.keyword):
+                par = self._parents.get(id(par))
+            if isinstance(par, ast.Call) and par.func is r:
+                uses.append(("call", par))
+            elif isinstance(par, ast.Call):
+                data = [a for a in list(par.args) + [k.value for k in par.keywords] if a is not r]
+                outer = self._parents.get(id(par))
+                if isinstance(outer, ast.Call) and outer.func is par:
+                    data += list(outer.args) + [k.value for k in outer.keywords]
+                elif isinstance(outer, ast.Assign) and len(outer.targets) == 1 and isinstance(outer.targets[0], ast.Name):
+                    # g = H(f); ... g(x)
+                    nm = outer.targets[0].id
+                    for c in ast.walk(self.fn):
+                        if isinstance(c, ast.Call) and isinstance(c.func, ast.Name) and c.func.id == nm:
+                            data += list(c.args) + [k.value for k in c.keywords]
+                    if not data:
+                        uses.append(("escape",))
+                        continue
+                elif not data:
+                    uses.append(("escape",))
+                    continue
+                uses.append(("hof", data))
+            else:
+                uses.append(("escape",))
+        return uses
+
+    def _nested_params(self, node) -> bool:
+        a = node.args
+        params = a.posonlyargs + a.args + a.kwonlyargs
+        pos = a.posonlyargs + a.args
+        uses = self._uses_of_nested(node)
+        decorated = bool(getattr(node, "decorator_list", None))
+        changed = False
+
+        def taint(p):
+            nonlocal changed
+            if p.arg not in self.tainted:
+                self.tainted.add(p.arg)
+                changed = True
+
+        if uses and not any(u[0] == "escape" for u in uses) and not (decorated and any(u[0] == "hof" for u in uses)):
+            # parameter taint follows the actual arguments
+            for u in uses:
+                if u[0] == "call":
+                    call = u[1]
+                    if any(isinstance(x, ast.Starred) for x in call.args):
+                        if any(self.is_tainted(x) for x in call.args):
+                            for p in params:
+                                taint(p)
+                        continue
+                    for i2, x in enumerate(call.args):
+                        if i2 < len(pos) and self.is_tainted(x):
+                            taint(pos[i2])
+                        elif i2 >= len(pos) and a.vararg and self.is_tainted(x):
+                            if a.vararg.arg not in self.tainted:
+                                self.tainted.add(a.vararg.arg)
+                                changed = True
+                    for k in call.keywords:
+                        if k.arg and self.is_tainted(k.value):
+                            for p in params:
+                                if p.arg == k.arg:
+                                    taint(p)
+                else:
+                    if any(self.is_tainted(x.value if isinstance(x, ast.Starred) else x) for x in u[1]):
+                        for p in params:
+                            st = ann_is_static(ast.unparse(p.annotation) if getattr(p, "annotation", None) is not None else None)
+                            if st is not True:
+                                taint(p)
+                        if a.vararg and a.vararg.arg not in self.tainted:
+                            self.tainted.add(a.vararg.arg)
                             changed = True
+            return changed
+        # escapes (returned wrapper, stored callable): parameters are traced unless annotated static / objects
+        for p in params:
+            st = ann_is_static(ast.unparse(p.annotation) if getattr(p, "annotation", None) is not None else None)
+            if st is True or p.arg in ("bijection", "method", "unwrappable", "module", "leaf", "d", "_",
+                                       "linear", "f", "func", "fn"):
+                continue
+            taint(p)
+        if a.vararg and a.vararg.arg not in self.tainted:
+            self.tainted.add(a.vararg.arg)
+            changed = True
+        return changed
 
     # ------------------------------------------------------------------------ sinks
     def sinks(self):
